@@ -2,4 +2,5 @@
 pub mod b64;
 pub mod psl;
 pub mod rp;
+pub mod tinytable;
 pub mod punycode;
